@@ -575,3 +575,85 @@ Proof.
   unfold noclash1, noclash1_lax in *. cbn [stype_of_decl st_super st_feats] in *.
   destruct (all_feats _ _ (t_super t)); [exact H3|congruence].
 Qed.
+
+(* ------------------------------------------------------------------ the same for type systems: the fuel bound inside wf_tsb follows from
+   the toposort contract on the written descriptor *)
+Lemma all_feats_none_shape a b : (forall m, option_map st_super (find_st m a) = option_map st_super (find_st m b)) ->
+  forall k n, all_feats k a n = None -> all_feats k b n = None.
+Proof.
+  intros H. induction k as [|k IH]; intros n; [reflexivity|]. rewrite !all_feats_S. destruct (is_builtin n); [discriminate|].
+  specialize (H n). destruct (find_st n a) as [x|]; destruct (find_st n b) as [y|]; cbn [option_map] in H; try discriminate; [|reflexivity].
+  injection H as H. rewrite H. destruct (all_feats k a (st_super y)) as [l|] eqn:E; [discriminate|]. intros _. rewrite (IH _ E). reflexivity.
+Qed.
+
+Section TsFuel.
+  Variable s : tsys.
+  Hypothesis Hwf : wf_ts_laxb s = true.
+  Variable da : stype.
+  Hypothesis Hda : find_st DOCANN (s_types s) = Some da.
+  Hypothesis Hin : In da (s_types s).
+  Hypothesis Hname : st_name da = DOCANN.
+  Hypothesis Hdef : memb DOCANN (emit_names s) = false -> norm_type da = stype_of_decl default_docann.
+  Local Notation types := (s_types s).
+  Local Notation U := (map stype_of_decl (user_decls (PE s da))).
+
+  Lemma tf_find m : find_st m U = option_map norm_type (find_st m types).
+  Proof. apply r2_find_st; assumption. Qed.
+
+  Lemma tf_strel_1 m : strel (find_st m U) (find_st m types).
+  Proof. rewrite tf_find. destruct (find_st m types) as [x|]; cbn; [|exact I]. split; [reflexivity|]. rewrite map_map. apply incl_refl. Qed.
+  Lemma tf_strel_2 m : strel (find_st m types) (find_st m U).
+  Proof. rewrite tf_find. destruct (find_st m types) as [x|]; cbn; [|exact I]. split; [reflexivity|]. rewrite map_map. apply incl_refl. Qed.
+
+  Lemma tf_length : List.length U = List.length types.
+  Proof. rewrite (Permutation_length (r2_content_perm s Hwf da Hda Hin Hname Hdef)), map_length. reflexivity. Qed.
+
+  (* lax in, lax out *)
+  Lemma tf_noclash_lax : noclash_laxb U = true.
+  Proof.
+    unfold noclash_laxb. rewrite tf_length.
+    rewrite (forallb_perm _ _ _ (r2_content_perm s Hwf da Hda Hin Hname Hdef)), forallb_map.
+    destruct (rt_parts s Hwf) as [_ [_ [Hnc _]]]. unfold noclash_laxb in Hnc.
+    rewrite forallb_forall in *. intros t Ht. specialize (Hnc t Ht). unfold noclash1_lax in *.
+    cbn [norm_type st_feats st_super]. apply andb_true_iff in Hnc. destruct Hnc as [H1 H2].
+    assert (map sf_name (map norm_feat (st_feats t)) = map sf_name (st_feats t)) as En by (rewrite map_map; reflexivity).
+    rewrite En, H1. cbn [andb].
+    destruct (all_feats (S (List.length types)) U (st_super t)) as [inh'|] eqn:E'; [|reflexivity].
+    destruct (all_feats_mono types U tf_strel_2 _ _ _ E') as [inh [E Hi]]. rewrite E in H2.
+    destruct (all_feats_mono U types tf_strel_1 _ _ _ E) as [inh'' [E'' Hi'']]. rewrite E' in E''. injection E'' as <-.
+    rewrite forallb_map. rewrite forallb_forall in *. intros f Hf. specialize (H2 f Hf). cbn [norm_feat sf_name].
+    destruct (find_sf (sf_name f) inh) eqn:Ef; [discriminate|]. rewrite (find_sf_none_incl _ _ _ Ef Hi''). reflexivity.
+  Qed.
+
+  (* strict on the written descriptor gives strict on the type system *)
+  Lemma tf_noclash_back : noclashb U = true -> noclashb types = true.
+  Proof.
+    intros HU. destruct (rt_parts s Hwf) as [_ [_ [Hnc _]]]. unfold noclashb, noclash_laxb in *.
+    rewrite forallb_forall in *. intros t Ht. specialize (Hnc t Ht).
+    assert (In (norm_type t) U) as Hu.
+    { eapply Permutation_in; [apply Permutation_sym; exact (r2_content_perm s Hwf da Hda Hin Hname Hdef)|]. apply in_map. exact Ht. }
+    specialize (HU _ Hu). rewrite tf_length in HU. unfold noclash1, noclash1_lax in *. cbn [norm_type st_super st_feats] in HU.
+    apply andb_true_iff in HU. destruct HU as [_ HU]. apply andb_true_iff in Hnc. destruct Hnc as [-> Hnc]. cbn [andb].
+    destruct (all_feats (S (List.length types)) types (st_super t)) as [inh|] eqn:E; [exact Hnc|]. exfalso.
+    rewrite (all_feats_none_shape types U) in HU; [discriminate| |exact E].
+    intros m. rewrite tf_find. destruct (find_st m types); reflexivity.
+  Qed.
+End TsFuel.
+
+Lemma wf_written_lax s : wf_ts_laxb s = true -> wf_descr_laxb (descr_of_ts s) = true.
+Proof.
+  intros Hwf. destruct (rt_da s Hwf) as [da [Hda [Hin [Hname Hdef]]]].
+  unfold wf_descr_laxb. cbv zeta. rewrite (rt_prep s Hwf da Hda Hin Hname). rewrite !andb_true_iff. repeat split.
+  - apply nodupb_NoDup. apply r2_nodup; assumption.
+  - apply r2_wf_all; assumption.
+  - apply tf_noclash_lax; assumption.
+Qed.
+
+Theorem ts_fuel_from_order s order : wf_ts_laxb s = true -> order_okb order (descr_of_ts s) = true -> wf_tsb s = true.
+Proof.
+  intros Hwf Hord. pose proof (fuel_from_order _ order (wf_written_lax s Hwf) Hord) as HD.
+  destruct (rt_da s Hwf) as [da [Hda [Hin [Hname Hdef]]]].
+  apply wf_descr_parts in HD. destruct HD as [_ [_ HD]]. rewrite (rt_prep s Hwf da Hda Hin Hname) in HD.
+  pose proof (tf_noclash_back s Hwf da Hda Hin Hname Hdef HD) as Hnc.
+  unfold wf_ts_laxb in Hwf. unfold wf_tsb. rewrite !andb_true_iff in *. destruct Hwf as [[[[[H1 H2] _] H4] H5] H6]. repeat split; auto.
+Qed.
